@@ -1,4 +1,4 @@
 SPECIFICATION Spec
-CONSTANTS G = 5 P = 5 MaxR = 4 MaxO = 3 KeepUnmapped = TRUE
+CONSTANTS G = 5 P = 5 MaxR = 4 MaxO = 3 KeepUnmapped = TRUE Ranges = {FALSE}
 INVARIANT ChainIsExact
 CHECK_DEADLOCK FALSE
